@@ -188,6 +188,20 @@ Definition ty_of (k : kind) : ty :=
   | KModule m => TModule m | KValue v => TValue v
   end.
 
+(** [if let (Instance(target_id), Instance(source_id)) = (target_kind, source_kind) { if target_id != existing ..] *)
+Definition nested_pair (tk sk : kind) (existing : id) : option (id * id) :=
+  match tk, sk with
+  | KInstance target_id, KInstance source_id => if id_eqb target_id existing then None else Some (target_id, source_id)
+  | _, _ => None
+  end.
+(** [!matches!((source.ty(), target.ty()), (Type::Value(Defined(_)), Type::Value(t)) if !matches!(t, Defined(_)))] *)
+Definition replaceable (s t : ty) : bool :=
+  match s, t with
+  | TValue (VDefined _), TValue (VDefined _) => true
+  | TValue (VDefined _), TValue _ => false
+  | _, _ => true
+  end.
+
 Definition opt_str_eqb (a b : option str) : bool :=
   match a, b with Some x, Some y => str_eqb x y | None, None => true | _, _ => false end.
 
@@ -447,9 +461,19 @@ with merge_interface (ord : list (str * id) -> list (str * id)) (cf : nat) (fuel
                 k' <-- remap_item_kind ord cf f t sk ;;; upd_if existing (if_set_export name k') in
             match assoc name (i_exports ex) with
             | Some tk =>
-              r1 <-- sub_fa cf t sk tk ;;;
-              if is_ok r1 then remapped_set (ty_of sk) (ty_of tk)      (* ... continue *)
-              else r2 <-- sub_af cf t tk sk ;;; must AEMismatchExport r2 ;;; do_remap
+              match nested_pair tk sk existing with
+              | Some (target_id, source_id) =>
+                (* Instance exports are requirements themselves: merge them (repository commit 0bf540d);
+                   the context "mismatched type for export" is transparent for the error class *)
+                merge_interface ord cf f target_id t source_id ;;;
+                remapped_set (ty_of sk) (ty_of tk)                       (* ... continue *)
+              | None =>
+                r1 <-- sub_fa cf t sk tk ;;;
+                if is_ok r1 then
+                  (* a defined type can only be replaced by another defined type (commit 874f221) *)
+                  if replaceable (ty_of sk) (ty_of tk) then remapped_set (ty_of sk) (ty_of tk) else ret tt
+                else r2 <-- sub_af cf t tk sk ;;; must AEMismatchExport r2 ;;; do_remap
+              end
             | None => do_remap
             end) (i_exports src)
   end
